@@ -519,6 +519,11 @@ impl Prop for C16P {
     fn shape(&self, _tier: Tier) -> CaseShape {
         CaseShape::streams(&[40, 40])
     }
+    fn timeout_ms(&self) -> u64 {
+        // real threads behind spin gates: on a machine that is busy with other work (load far above the
+        // number of cores) single cases were seen to take longer than the default 30 s
+        120_000
+    }
     fn worker(&self, excl: &[String]) -> Box<dyn WorkerState> {
         Box::new(W { excl_get: excl.iter().any(|e| e == "C16-F1"), excl_concat: excl.iter().any(|e| e == "C16-F2"), stress: None, plain: None })
     }
